@@ -27,6 +27,8 @@ PKG = {
         ("MC_Rpc_fwdq.cfg", ("quick", "thorough"), {}),
         ("MC_Rpc_multiq.cfg", ("quick", "thorough"), {}),
         ("MC_Rpc_free.cfg", ("quick", "thorough"), {}),
+        ("MC_Rpc_multi3q.cfg", ("quick", "thorough"), {}),
+        ("MC_Rpc_multi3.cfg", ("thorough",), {"workers": 8, "timeout": 2400}),
         ("MC_Rpc_fwd.cfg", ("thorough",), {"workers": 8, "timeout": 2400}),
         ("MC_Rpc_multi.cfg", ("thorough",), {"workers": 8, "timeout": 2400}),
     ],
@@ -34,12 +36,14 @@ PKG = {
     "trace_module": "Trace_Rpc",
     "trace_cfg": "Trace_Rpc.cfg",
     "assume": ASSUME,
-    "rule": "one evaluation = one (scenario, schedule) execution on the gated paused-clock tokio runtime: 1-2 scripted callee "
+    "rule": "one evaluation = one (scenario, schedule) execution on the gated paused-clock tokio runtime: 1-4 scripted callee "
             "actors (reply policies prompt / late after a virtual sleep / never / hold then drop / stash in state / answer own and "
             "stashed ports / from a spawned helper task / helper drops / handler fails; callee 1 optionally supervised), a forward "
             "collector, up to 3 concurrent caller tasks using call!, call_t!, rpc::call, ActorRef::call, DerivedActorRef::call, "
             "rpc::multi_call, rpc::call_and_forward and forward! with timeouts none / below / at / above the reply time, and stop / "
-            "kill / drain of callees and collector at scripted virtual times; micro-scenarios by DFS over poll orders (preemption "
+            "kill / drain of callees and collector at scripted virtual times; multi_call over 3 and 4 callees whose outcomes complete at "
+            "controlled virtual instants (every completion order for 3, reverse and five others for 4, mixes of reply / SenderError / "
+            "Timeout), each result position compared with its own request; micro-scenarios by DFS over poll orders (preemption "
             "bound 3, capped) plus random orders, random scenarios under seeded random schedules; distinct = distinct event-sequence "
             "hash; non-trivial = at least one preemption",
 }
